@@ -25,7 +25,13 @@ def size_probe(ctx):
 def make_jobs(ctx):
     inc = [os.path.join(ctx.repo, "w2c2")]
     rp = lambda c, j, p, v: native_replay_generic(c, j, p, v)
-    return size_probe(ctx) + [
+    # the declared maximum of a SHARED memory must reach the runtime (reader: limits flag 0x03) and every child instance must share the parent's memory
+    from ..elayer import ejob
+    from . import c06
+    extra = [ejob(ctx, "RD.memory_type", "c08_reader.c", "h_limits", ["reader.c:wasmReadMemoryType", "reader.c:wasmReadLimits"], defines=["LIM_MEMORY"],
+                  flags=["--unwind", "50", "--unwinding-assertions", "--no-signed-overflow-check", "--no-undefined-shift-check"])]
+    extra += c06.variant_jobs(ctx, "shared", False, True, True, only=["h_newchild", "h_memory"])
+    return size_probe(ctx) + extra + [
         Job("RG.grow_shared", os.path.join(H, "c18_grow.c"), entry="h_grow_shared", includes=inc, defines=["WASM_THREADS_PTHREADS"],
             enforce=[("wasmMemoryGrow", "c_wasmMemoryGrow")], funcs=["w2c2_base.h:wasmMemoryGrow (shared)"], replay=rp,
             info=dict(layer="RG", note="native replay executes the interfering grow inside the interposed pthread_mutex_lock")),
